@@ -38,13 +38,11 @@ func populateTable(c *core.Ctx, l *lifecycleRoles) (rs rows, runs int, undecided
 	var propsStage []*ssa.Function
 	seen := map[*ssa.Function]bool{}
 	reachesCall(pop, func(*ssa.CallCommon) bool { return false }, seen)
-	popRecv := core.NamedOf(pop.Signature.Recv().Type())
-	recvOf := func(f *ssa.Function) *types.Named {
-		f = core.TopLevel(f)
-		if f.Signature.Recv() == nil {
-			return nil
-		}
-		return core.NamedOf(f.Signature.Recv().Type())
+	// (a method, or a function that takes the object as its first parameter)
+	recvOf := func(f *ssa.Function) *types.Named { return ownerOf(core.TopLevel(f)) }
+	popRecv := recvOf(pop)
+	if popRecv == nil {
+		return rs, 0, "the populating routine belongs to no type"
 	}
 	for f := range seen {
 		if recvOf(f) != popRecv {
@@ -131,7 +129,7 @@ func populateTable(c *core.Ctx, l *lifecycleRoles) (rs rows, runs int, undecided
 						return m
 					case isString(ty):
 						return absint.Str(nm)
-					case types.Identical(ty, pop.Signature.Recv().Type()):
+					case core.NamedOf(ty) == popRecv:
 						return factory
 					}
 					return nil
